@@ -126,8 +126,74 @@ func richMsg(rng *Rng, size int) *Msg {
 	return m
 }
 
+// repliesUnrelatedToRequests (C01): the response the caller obtains is the message the handler sent — also when that
+// message is empty (zero-length encoding) and the request was not, or the other way round.
+func repliesUnrelatedToRequests(r *Run, rng *Rng) {
+	tps := append(bothTransports(), transportUnderTest{"httpnet", func(svr *scriptServer) (grpc.ClientConnInterface, func()) {
+		// a real net/http server and transport: an empty reply really carries "Content-Length: 0"
+		hs := httpgrpc.NewServer()
+		grpchantesting.RegisterTestServiceServer(hs, svr)
+		ts := httptest.NewServer(hs)
+		u, _ := url.Parse(ts.URL)
+		return &httpgrpc.Channel{Transport: ts.Client().Transport, BaseURL: u}, ts.Close
+	}})
+	for _, tp := range tps {
+		var reply *Msg
+		svr := &scriptServer{}
+		svr.unary = func(ctx context.Context, req *Msg) (*Msg, error) { return proto.Clone(reply).(*Msg), nil }
+		svr.sstream = func(req *Msg, s grpchantesting.TestService_ServerStreamServer) error {
+			for i := 0; i < 3; i++ {
+				if err := s.Send(proto.Clone(reply).(*Msg)); err != nil {
+					return err
+				}
+			}
+			return nil
+		}
+		ch, stop := tp.mk(svr)
+		cli := grpchantesting.NewTestServiceClient(ch)
+		for i := 0; i < r.Budget(12, 200); i++ {
+			req := richMsg(rng, 1+rng.Intn(64))
+			reply = &Msg{}
+			if i%3 == 2 {
+				reply = richMsg(rng, rng.Intn(32))
+				req = &Msg{}
+			}
+			want := marshalDet(reply)
+			c := map[string]interface{}{"transport": tp.name, "request_bytes": len(marshalDet(req)), "reply_bytes": len(want)}
+			out, err := cli.Unary(context.Background(), req)
+			r.Eval(fmt.Sprint("unrelated-reply", tp.name, i), true)
+			r.Count("unrelated-reply:" + tp.name)
+			if err != nil || string(marshalDet(out)) != string(want) {
+				got := "error " + fmt.Sprint(err)
+				if err == nil {
+					got = sprintf("%d bytes %x", len(marshalDet(out)), trunc(string(marshalDet(out)), 24))
+				}
+				r.Violate(tp.name+"/content/unary-response-not-what-handler-sent", "each message a receiver obtains is equal to the message sent", sprintf("unary: request of %d bytes, the handler replied with a message of %d bytes; the caller obtained %s", len(marshalDet(req)), len(want), got), c, got)
+			}
+			st, err := cli.ServerStream(context.Background(), req)
+			n := 0
+			for err == nil {
+				var m *Msg
+				m, err = st.Recv()
+				if err == nil {
+					if string(marshalDet(m)) != string(want) {
+						r.Violate(tp.name+"/content/stream-response-not-what-handler-sent", "each message a receiver obtains is equal to the message sent", sprintf("server stream: response %d differs from the %d-byte message the handler sent", n, len(want)), c, "")
+						break
+					}
+					n++
+				}
+			}
+			if n != 3 {
+				r.Violate(tp.name+"/content/stream-response-count", "the sequence received equals the sequence sent", sprintf("server stream: %d of 3 responses (%d bytes each) received, then %v", n, len(want), err), c, fmt.Sprint(err))
+			}
+		}
+		stop()
+	}
+}
+
 func extraC01(r *Run) {
 	rng := r.Rng.Fork("extraC01")
+	repliesUnrelatedToRequests(r, r.Rng.Fork("unrelated-replies"))
 	for _, tp := range bothTransports() {
 		ch, stop := tp.mk(echoServer())
 		cli := grpchantesting.NewTestServiceClient(ch)
